@@ -115,7 +115,11 @@ Class(c) == CASE c = "A" -> WithOp(AllLocs, {""})
               [] c = "X" -> WithOp(BadLocs, {"", "~", "x", "^"})
               [] c = "P" -> WithOp({l \in SingleLocs \cup PairLocs : l.chain[Len(l.chain)].r.rk \in {"all", "odd", "even", "from", "span", "one", "cnt"}}, {""})
               [] c = "R" -> WithOp(RawLocs, {"", "^"})
-Classes == {"A", "B", "all", "M", "m", "O", "X", "P", "R"}
+              \* a slice of P for the quick tier: canonical names, five ranges per level, two chains per pair
+              [] c = "p" -> WithOp({l \in SingleLocs : /\ \E d \in UsedDepths : l.chain[1].tn = LvName(d)
+                                                       /\ l.chain[1].r \in {R1("one", 1), R2("span", 0, 1), R1("all", 0), R1("from", 1), R1("odd", 0)}}
+                                   \cup {l \in PairLocs : <<l.chain[1].r, l.chain[2].r>> \in {<<R1("all", 0), R1("all", 0)>>, <<R1("one", 0), R1("from", 1)>>}}, {""})
+Classes == {"A", "B", "all", "M", "m", "O", "X", "P", "p", "R"}
 Alpha == [c \in Classes |-> SetToSeq(Class(c))]
 
 (* ------------------------------ mode groups ---------------------------- *)
@@ -222,7 +226,7 @@ F3Scan(li, ts) ==
                                              /\ LevelOfName(T, tk.chain[k].tn).ok
                                              /\ LET d == LevelOfName(T, tk.chain[k].tn).d
                                                     os == {O(T, LObjs(T, d)[j]).os : j \in 1..Width(d)}
-                                                IN d \notin IODepths /\ os # 0..(Width(d) - 1)
+                                                IN d \notin IODepths /\ (k >= 2 \/ os # 0..(Width(d) - 1))   \* inside a parent the indexes rarely start at 0
             \/ F3Scan(li, Tail(ts))
 F3Prone == F3Scan(TRUE, toks)
 
